@@ -343,7 +343,15 @@ pub fn c06_check(case: &Case, f32_run: bool, law_counts: &mut std::collections::
             let width = (ahi.0 - alo.0).max(bhi.0 - blo.0).max(1.0);
             // power-of-two / integer shifts keep exact families exact
             let far = (2.0f64).powi((width.log2().ceil() as i32) + 3);
-            for (dx, dy, touching) in [(ahi.0 - blo.0 + far, 0.0, false), (0.0, ahi.1 - blo.1 + far, false), (ahi.0 - blo.0, 0.0, true), (ahi.0 - blo.0, ahi.1 - blo.1, true)] {
+            for (dx, dy, touching) in [
+                (ahi.0 - blo.0 + far, 0.0, false),
+                (0.0, ahi.1 - blo.1 + far, false),
+                (ahi.0 - blo.0, 0.0, true),
+                (ahi.0 - blo.0, ahi.1 - blo.1, true),
+                (0.0, ahi.1 - blo.1, true),
+                (alo.0 - bhi.0, 0.0, true),
+                (0.0, alo.1 - bhi.1, true),
+            ] {
                 let shift = |p: Pt| (p.0 + dx, p.1 + dy);
                 let b2 = map_mp(b, &shift);
                 if !exact {
@@ -575,10 +583,11 @@ pub fn c08_check(case: &Case, rng: &mut Rng, f32_run: bool, counts: &mut std::co
     let base: Vec<MP> = OPS.iter().map(|&op| run(&case.a, &case.b, op, f32_run)).collect::<Result<_, _>>()?;
     // power-of-two scaling: bit-identical, polygon order included
     // "without overflow/underflow": the library forms fourth powers of lengths (squared cross products); in f32 the
-    // scaled coordinate magnitude is kept within [1e-4, 1e7] so that those stay normal numbers
+    // scaled coordinate magnitude is kept above 1e-4 so that those do not underflow (overflow to +inf is harmless: they
+    // are only tested for being positive) and below 1e17 so that squares stay finite
     let (kmin, kmax) = if f32_run {
         let sc = case.scale();
-        (((1e-4 / sc).log2().ceil() as i64).min(0), ((1e7 / sc).log2().floor() as i64).max(0))
+        (((1e-4 / sc).log2().ceil() as i64).min(0), ((1e17 / sc).log2().floor() as i64).max(0))
     } else {
         (-200, 200)
     };
@@ -607,6 +616,27 @@ pub fn c08_check(case: &Case, rng: &mut Rng, f32_run: bool, counts: &mut std::co
             let want = map_mp(&base[oi], &tr);
             if canon_mp(&r) != canon_mp(&want) {
                 return Err(("transform:translate".into(), format!("{} of operands translated by ({},{}) is not the translated result: {:?} vs {:?}", op.name(), dx, dy, r, want)));
+            }
+        }
+    }
+    // a huge translation (2^30..2^50) on exact families: still exactly representable, so still the identical result
+    if exact && !f32_run {
+        let sgn = |rng: &mut Rng| if rng.below(2) == 0 { 1.0 } else { -1.0 };
+        let (tx, ty) = (sgn(rng) * (2.0f64).powi(rng.range(30, 50) as i32), sgn(rng) * (2.0f64).powi(rng.range(30, 50) as i32));
+        let tr = |p: Pt| (p.0 + tx, p.1 + ty);
+        let representable = rings(&case.a).chain(rings(&case.b)).flatten().all(|q| (q.0 + tx) - tx == q.0 && (q.1 + ty) - ty == q.1 && (q.0 + tx).abs() < 4.0e15 && (q.1 + ty).abs() < 4.0e15);
+        // intersection points of exact families are lattice points with the same granularity as the input (halves for the
+        // union-jack lattice): require one spare bit
+        let spare = rings(&case.a).chain(rings(&case.b)).flatten().all(|q| (q.0 * 0.5 + tx) - tx == q.0 * 0.5 && (q.1 * 0.5 + ty) - ty == q.1 * 0.5);
+        if representable && spare {
+            let (a2, b2) = (map_mp(&case.a, &tr), map_mp(&case.b, &tr));
+            *counts.entry("huge-translations".into()).or_insert(0) += 1;
+            for (oi, &op) in OPS.iter().enumerate() {
+                let r = run(&a2, &b2, op, f32_run)?;
+                let want = map_mp(&base[oi], &tr);
+                if canon_mp(&r) != canon_mp(&want) {
+                    return Err(("transform:translate".into(), format!("{} of operands translated by ({:e},{:e}) is not the translated result: {:?} vs {:?}", op.name(), tx, ty, r, want)));
+                }
             }
         }
     }
@@ -688,6 +718,31 @@ pub fn c09_check(case: &Case, f32_run: bool, counts: &mut std::collections::BTre
     let exact = if f32_run { case.exact_f32 } else { case.exact };
     if case.a.is_empty() || case.b.is_empty() {
         return Ok(());
+    }
+    // an empty operand and an operand that consists of one far part take the same shortcut: the far part may only add itself
+    if let Some(part) = far_part(&case.a, &case.b, 1, exact) {
+        if !f32_run || part[0].iter().all(|q| (q.0 as f32 as f64) == q.0 && (q.1 as f32 as f64) == q.1) {
+            let empty: MP = vec![];
+            let only_part: MP = vec![part.clone()];
+            *counts.entry("empty-operand-vs-far-part-only".into()).or_insert(0) += 1;
+            for &op in OPS.iter() {
+                for part_is_clipping in [true, false] {
+                    let (base, with) = if part_is_clipping { (run(&case.a, &empty, op, f32_run)?, run(&case.a, &only_part, op, f32_run)?) } else { (run(&empty, &case.b, op, f32_run)?, run(&only_part, &case.b, op, f32_run)?) };
+                    let contributes = match op {
+                        Op::Union | Op::Xor => true,
+                        Op::Difference => !part_is_clipping,
+                        Op::Intersection => false,
+                    };
+                    let mut want = base.clone();
+                    if contributes {
+                        want.push(part.clone());
+                    }
+                    if canon_ringset(&with) != canon_ringset(&want) {
+                        return Err(("far-part".into(), format!("{} with an empty {} operand vs. the same with a single far part: {:?} vs expected {:?}", op.name(), if part_is_clipping { "clipping" } else { "subject" }, with, want)));
+                    }
+                }
+            }
+        }
     }
     let base: Vec<MP> = OPS.iter().map(|&op| run(&case.a, &case.b, op, f32_run)).collect::<Result<_, _>>()?;
     let hooks_before = (hit(geo_booleanop::verif::Site::TrivialResult), hit(geo_booleanop::verif::Site::SubEarlyBreak));
@@ -829,7 +884,7 @@ pub fn c10_check(case: &Case, counts: &mut std::collections::BTreeMap<String, u6
         return Ok(());
     }
     let w = witnesses(case, case.tol(true));
-    let small = max_abs_coord(&[&case.a, &case.b]) < 1024.0;
+    let small = max_abs_coord(&[&case.a, &case.b]) < 1024.0 || (case.integer && max_abs_coord(&[&case.a, &case.b]) <= 16_777_216.0);
     for op in OPS {
         let r32 = run(&case.a, &case.b, op, true)?;
         *counts.entry("f32_operations".into()).or_insert(0) += 1;
